@@ -58,6 +58,22 @@ REACH = ["add_picture:path", "add_picture:stream", "insert_picture", "poster-fra
 
 
 # ------------------------------------------------------------------ image synthesis (generator side)
+class DuckStream:
+    """read / seek / tell and nothing else (no seekable(), no mode, no name)."""
+
+    def __init__(self, data):
+        self._b = io.BytesIO(data)
+
+    def read(self, n=-1):
+        return self._b.read(n)
+
+    def seek(self, pos, whence=0):
+        return self._b.seek(pos, whence)
+
+    def tell(self):
+        return self._b.tell()
+
+
 def make_image(rec):
     """Recipe -> bytes.  Pillow encodes the pixels; the resolution fields are written by hand."""
     from PIL import Image
@@ -371,6 +387,14 @@ class Run:
             return p
         if via["how"] == "stream-reused" and i in self.streams:
             return self.streams[i]  # already read to its end by an earlier addition
+        if via["how"] == "stream-duck":
+            # a file-like object that is not an io class (an upload wrapper): read / seek / tell only, the caller has already
+            # peeked at its first bytes, and the same object is handed in again for later additions of this image
+            if ("duck", i) not in self.streams:
+                self.streams[("duck", i)] = DuckStream(self.images[i])
+            self.streams[("duck", i)].read(min(8, len(self.images[i])))
+            self.acc.count("additions_from_a_duck_typed_stream_not_at_position_0")
+            return self.streams[("duck", i)]
         self.streams[i] = io.BytesIO(self.images[i])
         return self.streams[i]
 
@@ -581,7 +605,7 @@ def gen_history(i):
         fmt = recipes[k]["fmt"]
         r = rnd.random()
         if r < 0.3:
-            return {"how": rnd.choice(["stream", "stream", "stream-reused"])}
+            return {"how": rnd.choice(["stream", "stream", "stream-reused", "stream-duck"])}
         right = sorted(EXTS[fmt])[0]
         ext = rnd.choice([right, right, right.upper(), "", "dat"] + [sorted(EXTS[f])[-1] for f in FORMATS if f != fmt])
         return {"how": "path" if rnd.random() < 0.7 else "path-shared", "name": rnd.choice(stems) + ("." + ext if ext else "")}
